@@ -42,7 +42,7 @@ ALL_FAMILIES = dict(D.FAMILIES, **D.EXTRA_FAMILIES)
 
 
 def plan(tier, seed):
-    nh = 6 if tier == 'quick' else 60
+    nh = 14 if tier == 'quick' else 60
     specs = []
     for fam in ALL_FAMILIES:
         for v in ('1.0', '1.1'):
@@ -93,6 +93,8 @@ def build_pool(fam, rng):
     for i in range(5):
         if fam == 'poly':
             doc = D.gen_poly(rng, None)
+        elif fam == 'fx':
+            doc = D.gen_fx(rng)
         else:
             doc = D.GENERATORS[fam](rng)
         prefixes = D.default_prefixes(fam, rng)
@@ -103,7 +105,10 @@ def build_pool(fam, rng):
             r = D.apply_fault(doc, p, k, rng)
             if r:
                 pool.append((k, D.render_doc(r[0], fam, prefixes=prefixes), r[0]))
-        if fam == 'poly':
+        if fam == 'fx':
+            pool.append(('mixed', D.render_doc(D.gen_fx(rng), fam, prefixes=prefixes), None))
+            pool.append(('mixed', D.render_doc(D.gen_fx(rng), fam, prefixes=prefixes), None))
+        elif fam == 'poly':
             for f in ('dup_key', 'dangling_keyref'):
                 d2 = D.gen_poly(rng, f)
                 pool.append((f, D.render_doc(d2, fam, prefixes=prefixes), d2))
